@@ -1,162 +1,65 @@
 (* Slice.v — C05.  FAITHFUL executable model of the slice arithmetic of
-     include/nmtools/array/index/slice.hpp
-       compute_range (l.35), compute_step (l.93), compute_index (l.106),
-       shape_slice (l.848) / slice (l.1019)                [variadic, typed parts]
-       shape_dynamic_slice (l.446) / dynamic_slice (l.627) [run-time list of either]
-     include/nmtools/platform/math/constexpr.hpp  constexpr_ceil (l.8)
-   with the C++ TYPE of every intermediate made explicit (DESIGN Appendix G):
-     extent si : size_t (64-bit unsigned)   bounds / step : int (32-bit signed)
-     promote_index_t<int,size_t> = int      `? :` between int and size_t : size_t
-     length = (size_t)(int) ceil( (float) range / step )
-   and the SPEC: CPython's PySlice_AdjustIndices / PySlice_GetIndicesEx
-   ("slice.indices" + length formula), written independently.
+     include/nmtools/array/index/slice.hpp   (after the repair "fix: slice arithmetic follows python's slice.indices")
+       normalize_slice, compute_range, compute_step, compute_slice_size, compute_index,
+       shape_slice / slice                  [variadic, typed parts]
+       shape_dynamic_slice / dynamic_slice  [run-time list of either]
+   and the SPEC: CPython's PySlice_AdjustIndices / PySlice_GetIndicesEx ("slice.indices" + length formula),
+   written independently.
 
-   Values of C++ integer objects are represented by the mathematical integer
-   they denote: a size_t by a Z in [0,2^64), an int by a Z in [-2^31,2^31).
-   Signed overflow of `int` additions (undefined in C++) is modelled as
-   two's-complement wrap; no theorem depends on it (all theorems bound the inputs).
+   The C++ does all per-axis arithmetic in int64_t and converts to size_t at the end; the model keeps every
+   conversion and every operation that could leave the type as an explicit wrap (i64 / u64), so that "no overflow"
+   is something the theorems prove from the ranges of the inputs, not something the model assumes.
+   Values of C++ integer objects are represented by the mathematical integer they denote.
+   (The arithmetic of the pinned tree before the repair — size_t/int/binary32 typed, wrong on two thirds of the
+   per-axis box — is archived with its theorems in /verif/fixes/C05_pre_repair.)
    Stdlib only, no axioms. *)
 From NM Require Import Base.
 Local Open Scope Z_scope.
 
 Definition u64 (z : Z) : Z := wrap 64 z.
-Definition u32 (z : Z) : Z := wrap 32 z.
-Definition i32 (z : Z) : Z := swrap 32 z.
 Definition i64 (z : Z) : Z := swrap 64 z.
 
 (* ------------------------------------------------------------------ *)
 (* Model                                                               *)
 (* ------------------------------------------------------------------ *)
 
-(* slice.hpp:38-46  stop = (int)stop_ < (int)si ? (int)stop_ : (int)si *)
-Definition clip_stop (si stop : Z) : Z :=
-  let a := i32 stop in let b := i32 si in if a <? b then a else b.
+(* normalize_slice: {start, stop, step} in int64_t.  si : size_t -> int64_t; bounds / step: int (or any index type) -> int64_t *)
+Definition clamp64 (n lower upper v : Z) : Z :=
+  let v' := if v <? 0 then i64 (v + n) else v in
+  if v' <? lower then lower else if upper <? v' then upper else v'.
+Definition normalize_slice (si : Z) (start stop step : option Z) : Z * Z * Z :=
+  let n := i64 si in
+  let st := match step with None => 1 | Some s => i64 s end in
+  let lower := if st <? 0 then -1 else 0 in
+  let upper := if st <? 0 then i64 (n - 1) else n in
+  let s0 := match start with None => (if st <? 0 then upper else lower) | Some a => clamp64 n lower upper (i64 a) end in
+  let s1 := match stop with None => (if st <? 0 then lower else upper) | Some b => clamp64 n lower upper (i64 b) end in
+  (s0, s1, st).
 
-(* slice.hpp:51 abs_ on int *)
-Definition abs_i (v : Z) : Z := if v <? 0 then i32 (- v) else v.
-
-(* slice.hpp:35-90 compute_range; the result is the integer denoted by the C++
-   value (size_t in the first four arms, int in the both-bounds arm).
-   A step that is "omitted" (2-element slice) behaves exactly like None:
-   in the dynamic path it is size_t{1}, for which `step_ < 0` is false. *)
+(* compute_range: distance from start to stop in the direction of the step, 0 when empty; size_t *)
 Definition compute_range (si : Z) (start stop step : option Z) : Z :=
-  match start, stop with
-  | None, None => si
-  | Some a, None =>
-      match step with
-      | Some s => if (s <? 0) && (0 <=? a) then u64 (i32 (a + 1)) else u64 (si - a)   (* start + 1 is int arithmetic *)
-      | None => u64 (si - a)
-      end
-  | None, Some b => if b <? 0 then u64 (si + b) else u64 (clip_stop si b)
-  | Some a, Some b =>
-      let st := clip_stop si b in
-      if (st <? 0) && (a <? 0) then i32 (u64 (u64 (si - abs_i st) - u64 (si - abs_i a)))
-      else if st <? 0 then i32 (u64 (u64 (si - abs_i st) - a))
-      else if a <? 0 then i32 (u64 (st - u64 (si - abs_i a)))
-      else if a <? st then i32 (st - a) else i32 (a - st)
-  end.
+  let '(s0, s1, st) := normalize_slice si start stop step in
+  let r := if st <? 0 then i64 (s0 - s1) else i64 (s1 - s0) in
+  u64 (if 0 <? r then r else 0).
 
-(* slice.hpp:93 / 972-987: |step| as unsigned; None -> 1ul *)
+(* compute_step: |step| as size_t; None -> 1 *)
 Definition compute_step (step : option Z) : Z :=
-  match step with None => 1 | Some s => if s <? 0 then u32 (- s) else u32 s end.
+  match step with None => 1 | Some s => let s' := i64 s in u64 (if s' <? 0 then i64 (- s') else s') end.
 
-(* outcome of  (size_t)(int) constexpr_ceil( (float)s / step ) *)
+(* outcome of compute_slice_size: (range + |step| - 1) / |step| in size_t *)
 Inductive lenres :=
 | Len (z : Z)        (* the size_t stored in the result shape, in [0,2^64) *)
-| LenUB.             (* float -> int conversion out of range: undefined behaviour *)
+| LenUB.             (* step = 0: integer division by zero, undefined behaviour *)
 
-Definition ceil_div (s t : Z) : Z := - ((- s) / t).
-
-(* binary32: nearest float to the positive rational p/q, ties to even, as (m, e) with value m * 2^e and
-   2^23 <= m <= 2^24.  No subnormals / overflow: every operand here lies in [2^-32, 2^64]. *)
-Definition f32_scale (p q e : Z) : Z * Z := (p * 2 ^ Z.max (- e) 0, q * 2 ^ Z.max e 0).
-Definition f32r (p q : Z) : Z * Z :=
-  let e0 := Z.log2 p - Z.log2 q - 24 in
-  let '(n0, d0) := f32_scale p q e0 in
-  let e := if n0 / d0 <? 2 ^ 24 then e0 else e0 + 1 in
-  let '(n, d) := f32_scale p q e in
-  let m0 := n / d in let r := n mod d in
-  let m := if (d <? 2 * r) || ((d =? 2 * r) && Z.odd m0) then m0 + 1 else m0 in
-  (m, e).
-(* (size_t)(int) constexpr_ceil( (float)s / (float)t ) computed as the hardware does, t > 0:
-   constexpr_ceil<int>(f): i = (int)f (truncation, UB when out of range); f > i ? i+1 : i *)
-Definition float_len_big (s t : Z) : lenres :=
-  if s =? 0 then Len 0 else
-  let '(ms, es) := f32r (Z.abs s) 1 in
-  let '(mt, et) := f32r t 1 in
-  let '(m, e) := f32r (ms * 2 ^ Z.max (es - et) 0) (mt * 2 ^ Z.max (et - es) 0) in
-  if 0 <=? e then
-    let v := (if s <? 0 then - (m * 2 ^ e) else m * 2 ^ e) in
-    if (v <? - 2 ^ 31) || (2 ^ 31 <=? v) then LenUB else Len (u64 v)
-  else
-    let d := 2 ^ (- e) in
-    let i0 := m / d in
-    if s <? 0 then Len (u64 (- i0))
-    else Len (u64 (if m mod d =? 0 then i0 else i0 + 1)).
-
-(* binary32 has a 24-bit significand: integers of magnitude <= 2^24 are exact, and for |s|, t <= 2^24 the correctly
-   rounded quotient fl(s/t) has the same ceiling as s/t (s/t differs from any integer it is not equal to by at least
-   1/t, which exceeds half an ulp of a quotient below 2^24/t); there the model uses the exact ceiling directly
-   (C05_float_model_consistent_on_sample cross-checks the two definitions); everywhere else it is float_len_big. *)
-Definition float_len (s t : Z) : lenres :=
-  if t <=? 0 then LenUB                       (* division by zero: inf -> int *)
-  else if (Z.abs s <=? 2 ^ 24) && (t <=? 2 ^ 24) then Len (u64 (ceil_div s t))
-  else float_len_big s t.
-
-(* slice.hpp:970-992 (variadic) = 457-474 (dynamic): one kept axis *)
 Definition slice_len (si : Z) (start stop step : option Z) : lenres :=
-  float_len (compute_range si start stop step) (compute_step step).
+  let r := compute_range si start stop step in
+  let t := compute_step step in
+  if t =? 0 then LenUB else Len (u64 (u64 (r + t) - 1) / t).
 
-(* slice.hpp:113-125 stop of compute_index: clipped to [-si, si] in int *)
-Definition clip_stop2 (si stop : Z) : Z :=
-  let s := clip_stop si stop in
-  let nb := i32 (u64 (- si)) in
-  if nb <? s then s else nb.
-
-(* slice.hpp:106-278 compute_index, index_t = size_t; k = at(indices,i_i).
-   Returns the size_t result in [0,2^64). *)
+(* compute_index: (result_t)(start + (int64_t)indices[i] * step), index_t = size_t *)
 Definition compute_index (k si : Z) (start stop step : option Z) : Z :=
-  match start, stop, step with
-  | None, None, None => u64 k                                           (* (1) *)
-  | Some a, None, None =>                                               (* (2) stop = si : size_t *)
-      u64 ((if 0 <=? a then u64 a else u64 (si - a)) + k)
-  | Some a, Some b, None =>                                             (* (3) *)
-      let sv := clip_stop2 si b in
-      let s := if (0 <=? a) && (0 <? sv) then u64 a
-               else if (a <? 0) && (0 <? sv) then u64 (i32 (sv + a))
-               else if (0 <=? a) && (sv <? 0) then u64 a
-               else u64 (si + a) in
-      u64 (s + k)
-  | Some a, Some b, Some c =>                                           (* (4) *)
-      let sv := clip_stop2 si b in
-      let s :=
-        if (0 <=? a) && (0 <=? sv) && (c <? 0) then
-          (if 0 <? sv then u64 (i32 (sv - 1)) else u64 a)
-        else if (a <? 0) && (0 <? sv) && (c <? 0) then u64 (i32 (sv + a))
-        else if (0 <=? a) && (sv <? 0) && (c <? 0) then u64 a
-        else if (a <? 0) && (sv <? 0) && (c <? 0) then u64 (si + a - 1)
-        else if (0 <=? a) && (0 <? sv) && (0 <? c) then u64 a
-        else if (a <? 0) && (0 <? sv) && (0 <? c) then u64 (i32 (sv + a))
-        else if (0 <=? a) && (sv <? 0) && (0 <? c) then u64 a
-        else u64 (si + a) in
-      u64 (s + u64 (k * u64 c))
-  | None, Some b, None => u64 k
-  | None, Some b, Some c =>
-      let sv := clip_stop2 si b in
-      let s := if (0 <? sv) && (0 <? c) then 0
-               else if (0 <? sv) && (c <? 0) then u64 si
-               else 0 in
-      u64 (s + u64 (k * u64 c))
-  | None, None, Some c =>                                               (* sindex_t arithmetic *)
-      let s := if c <? 0 then si - 1 else 0 in
-      u64 (s + k * c)
-  | Some a, None, Some c =>
-      let s := if (0 <=? a) && (0 <? c) then u64 a
-               else if (0 <=? a) && (c <? 0) then u64 a
-               else if (a <? 0) && (0 <? c) then u64 (si + a)
-               else u64 a in
-      u64 (s + u64 (k * u64 c))
-  end.
+  let '(s0, _, st) := normalize_slice si start stop step in
+  u64 (i64 (s0 + i64 (i64 k * st))).
 
 (* ---------- several axes ---------- *)
 Inductive sl :=
@@ -167,7 +70,7 @@ Inductive sl :=
 Definition is_ell (s : sl) : bool := match s with SEll => true | _ => false end.
 Definition is_int (s : sl) : bool := match s with SInt _ => true | _ => false end.
 
-(* number of axes an ellipsis fills: dim - (n_slices - 1)  (slice.hpp:513, 926) *)
+(* number of axes an ellipsis fills: dim - (n_slices - 1) *)
 Definition nfill (shape : list Z) (sls : list sl) : nat := length shape - (length sls - 1).
 
 (* the model covers well-formed calls only (the header has "TODO error handling"):
@@ -178,8 +81,7 @@ Definition wf_slices (shape : list Z) (sls : list sl) : bool :=
   (if Nat.eqb ne 0 then Nat.eqb (length sls) (length shape)
    else Nat.leb (length sls - 1) (length shape)).
 
-(* shape_slice (slice.hpp:896-1002) / shape_dynamic_slice (508-553): walk the parts,
-   s_i advances over the source axes *)
+(* shape_slice / shape_dynamic_slice: walk the parts, s_i advances over the source axes *)
 Fixpoint shape_slice_go (nf : nat) (shape : list Z) (sls : list sl) : list lenres :=
   match sls with
   | [] => []
@@ -190,23 +92,9 @@ Fixpoint shape_slice_go (nf : nat) (shape : list Z) (sls : list sl) : list lenre
 Definition shape_slice (shape : list Z) (sls : list sl) : list lenres :=
   shape_slice_go (nfill shape sls) shape sls.
 
-(* The variadic shape_slice / slice read `size_t si = at(shape, s_i)` at the top of EVERY part (slice.hpp:902, 1058),
-   also for an ellipsis; when the ellipsis is the last part and stands for zero axes, s_i = dim and the read is
-   past the end of the shape (std::vector / std::array: at() throws std::out_of_range).  The run-time list path tests
-   is_ellipsis first (slice.hpp:511) and does not read.  [rem] = number of source axes not yet consumed. *)
-Fixpoint var_oob_go (nf rem : nat) (sls : list sl) : bool :=
-  match sls with
-  | [] => false
-  | SEll :: r => Nat.eqb rem 0 || var_oob_go nf (rem - nf) r
-  | _ :: r => Nat.eqb rem 0 || var_oob_go nf (rem - 1) r
-  end.
-Definition var_oob (shape : list Z) (sls : list sl) : bool := var_oob_go (nfill shape sls) (length shape) sls.
-(* None = the call throws *)
-Definition shape_slice_variadic (shape : list Z) (sls : list sl) : option (list lenres) :=
-  if var_oob shape sls then None else Some (shape_slice shape sls).
-Definition shape_slice_dynamic (shape : list Z) (sls : list sl) : option (list lenres) := Some (shape_slice shape sls).
-
-(* slice (1055-1124) / dynamic_slice (650-730): source multi-index of result index idx *)
+(* slice / dynamic_slice: source multi-index of result index idx.
+   integer part: slice < 0 ? si - abs_(slice) : slice  (size_t - int, unchanged by the repair) *)
+Definition abs_i (v : Z) : Z := if v <? 0 then swrap 32 (- v) else v.
 Definition int_index (si i : Z) : Z := if i <? 0 then u64 (si - abs_i i) else u64 i.
 Fixpoint slice_go (nf : nat) (idx shape : list Z) (sls : list sl) : list Z :=
   match sls with
@@ -275,77 +163,38 @@ Definition py_src_index (idx shape : list Z) (sls : list sl) : list Z :=
   py_index_axes idx shape (py_expand (length shape - length (filter (fun s => negb (is_ell s)) sls)) sls).
 
 (* ------------------------------------------------------------------ *)
-(* slice_core: where the code is right — a predicate on the INPUTS only  *)
+(* boolean hypotheses of the theorems: the TYPES of the arguments        *)
 (* ------------------------------------------------------------------ *)
-(* both bounds given, step > 0 (or none, c = 1) *)
-Definition core_both_pos (n a b c : Z) : bool :=
-  (* ordered bounds: the slice may be non-empty *)
-     ((0 <=? a) && (0 <=? b) && (a <=? Z.min b n))                 (* A1  0 <= a <= min(b,n) *)
-  || ((a <? 0) && (- n <=? a) && (n <=? b))                        (* A2  -n <= a < 0, stop at or past the end *)
-  || ((0 <=? a) && (b <? 0) && (- n <=? b) && (a <=? n + b))       (* A3  a <= n+b, -n <= b < 0 *)
-  || ((a <? 0) && (- n <=? a) && (b <? 0) && (a <=? b))            (* A4  -n <= a <= b < 0 *)
-  (* crossed by less than one step: both sides give the empty slice *)
-  || ((a <? 0) && (b <? 0) && (b <=? a) && (a - b <? c))           (* E1 *)
-  || ((0 <=? a) && (b <? 0) && (n + b <? a) && (a - (n + b) <? c)) (* E2 *)
-  || ((a <? 0) && (0 <=? b) && (Z.min b n <=? n + a) && (n + a - Z.min b n <? c)). (* E3 *)
-
-(* both bounds given, step < 0: only empty results and the stop = 0 family are right *)
-Definition core_both_neg (n a b : Z) : bool :=
-     ((a <? 0) && (b <? 0) && (a =? b))                            (* N1 *)
-  || ((0 <=? a) && (b <? 0) && (a =? n + b))                       (* N2 *)
-  || ((a <? 0) && (0 <=? b) && (n + a =? Z.min b n))               (* N3 *)
-  || ((0 <=? a) && (0 <=? b) && (a =? Z.min b n))                  (* N4 *)
-  || ((0 <=? a) && (a <=? n - 1) && (b =? 0)).                     (* F   a:0:-s *)
-
-Definition step_ok24 (c : Z) : bool := negb (c =? 0) && (Z.abs c <=? 2 ^ 24).
-
-Definition slice_core (n : Z) (start stop step : option Z) : bool :=
-  (0 <=? n) &&
-  match start, stop, step with
-  | None, None, None => true                                        (* [:] *)
-  | None, None, Some c => step_ok24 c                               (* [::s], [::-s] *)
-  | None, Some b, None => (- n <=? b)                               (* [:b], b >= -n *)
-  | None, Some b, Some c => (0 <? c) && step_ok24 c && (- n <=? b)  (* [:b:s], s > 0 *)
-  | Some a, None, None => (0 <=? a) && (a <=? n)                    (* [a:], 0 <= a <= n *)
-  | Some a, None, Some c =>
-      step_ok24 c &&
-      (((0 <? c) && (0 <=? a) && (a <=? n))                         (* [a::s]  0 <= a <= n *)
-       || ((c <? 0) && (0 <=? a) && (a <=? n - 1)))                 (* [a::-s] 0 <= a < n *)
-  | Some a, Some b, None => core_both_pos n a b 1
-  | Some a, Some b, Some c =>
-      step_ok24 c &&
-      (((0 <? c) && core_both_pos n a b c) || ((c <? 0) && core_both_neg n a b))
-  end.
-
-(* boolean hypotheses of the theorems: C++ `int` bounds, extent below 2^24 (binary32 exactness) *)
-Definition intb (v : Z) : bool := (- 2 ^ 31 <? v) && (v <? 2 ^ 31 - 1).   (* INT_MIN / INT_MAX excluded: -v and v+1 overflow *)
+(* a bound / step is a C++ `int`; an extent is a size_t below 2^62 (so that n + |bound| and k*step stay inside int64_t) *)
+Definition intb (v : Z) : bool := (- 2 ^ 31 <=? v) && (v <? 2 ^ 31).
 Definition ointb (o : option Z) : bool := match o with None => true | Some v => intb v end.
+Definition ext_ok (n : Z) : bool := (0 <=? n) && (n <? 2 ^ 62).
+Definition step_nz (c : option Z) : bool := match c with Some s => negb (s =? 0) | None => true end.
 Definition axis_dom (n : Z) (a b c : option Z) : bool :=
-  (n <? 2 ^ 24) && ointb a && ointb b && ointb c && slice_core n a b c.
+  ext_ok n && ointb a && ointb b && ointb c && step_nz c.
 
 (* several axes: every range part in axis_dom, every integer inside [-n,n), the parts account for
    exactly the axes of the shape (nf = number of axes the ellipsis stands for) *)
-Definition ext_ok (n : Z) : bool := (0 <=? n) && (n <? 2 ^ 24).
-Fixpoint axes_core (nf : nat) (shape : list Z) (sls : list sl) : bool :=
+Fixpoint axes_dom (nf : nat) (shape : list Z) (sls : list sl) : bool :=
   match sls with
   | [] => match shape with [] => true | _ => false end
   | SInt i :: r =>
       match shape with
-      | n :: s' => ext_ok n && (- n <=? i) && (i <? n) && axes_core nf s' r
+      | n :: s' => ext_ok n && (- 2 ^ 31 <? i) && (i <? 2 ^ 31) && (- n <=? i) && (i <? n) && axes_dom nf s' r   (* -INT_MIN is undefined *)
       | [] => false
       end
   | SEll :: r =>
-      Nat.leb nf (length shape) && forallb ext_ok (firstn nf shape) && axes_core nf (skipn nf shape) r
+      Nat.leb nf (length shape) && forallb ext_ok (firstn nf shape) && axes_dom nf (skipn nf shape) r
   | SRange a b c :: r =>
       match shape with
-      | n :: s' => axis_dom n a b c && axes_core nf s' r
+      | n :: s' => axis_dom n a b c && axes_dom nf s' r
       | [] => false
       end
   end.
 Definition multi_dom (shape : list Z) (sls : list sl) : bool :=
-  wf_slices shape sls && axes_core (nfill shape sls) shape sls.
+  wf_slices shape sls && axes_dom (nfill shape sls) shape sls.
 
-(* result of one axis as a pair (length, index function) for comparison *)
+(* one axis, for finite sweeps *)
 Definition model_axis_ok (n : Z) (start stop step : option Z) : bool :=
   match slice_len n start stop step with
   | Len l =>
